@@ -42,8 +42,8 @@ type Expr struct {
 }
 
 func Atom(k LeafKind, rel, via string) *Expr { return &Expr{Op: 'a', Kind: k, Rel: rel, Via: via} }
-func Not(e *Expr) *Expr                       { return &Expr{Op: '!', L: e} }
-func Bin(op byte, l, r *Expr) *Expr           { return &Expr{Op: op, L: l, R: r} }
+func Not(e *Expr) *Expr                      { return &Expr{Op: '!', L: e} }
+func Bin(op byte, l, r *Expr) *Expr          { return &Expr{Op: op, L: l, R: r} }
 
 type TypeRef struct{ NS, Rel string } // Rel != "" : SubjectSet<NS, Rel>
 
@@ -323,59 +323,59 @@ func (p *Prog) Tokens(st Style) []Tok {
 			}
 		}
 		emitRelated := func() {
-		if len(ns.Rels) > 0 {
-			b.t("related", ":", "{")
-			b.nl()
-			for _, r := range ns.Rels {
-				b.t(quote(r.Name, st.QuoteNames), ":")
-				b.relType(r.Types)
-				switch st.RelSep {
-				case 1:
-					b.t(",")
-				case 2:
+			if len(ns.Rels) > 0 {
+				b.t("related", ":", "{")
+				b.nl()
+				for _, r := range ns.Rels {
+					b.t(quote(r.Name, st.QuoteNames), ":")
+					b.relType(r.Types)
+					switch st.RelSep {
+					case 1:
+						b.t(",")
+					case 2:
+						b.t(";")
+					}
+					b.nl()
+				}
+				b.t("}")
+				if st.ClassSep {
 					b.t(";")
 				}
 				b.nl()
 			}
-			b.t("}")
-			if st.ClassSep {
-				b.t(";")
-			}
-			b.nl()
-		}
 		}
 		emitPermits := func() {
-		if len(ns.Perms) > 0 {
-			b.t("permits", "=", "{")
-			b.nl()
-			for i, pm := range perms {
-				b.t(quote(pm.Name, st.QuoteNames), ":", "(", "ctx")
-				if st.CtxType {
-					b.t(":", "Context")
+			if len(ns.Perms) > 0 {
+				b.t("permits", "=", "{")
+				b.nl()
+				for i, pm := range perms {
+					b.t(quote(pm.Name, st.QuoteNames), ":", "(", "ctx")
+					if st.CtxType {
+						b.t(":", "Context")
+					}
+					b.t(")")
+					if st.BoolType {
+						b.t(":", "boolean")
+					}
+					b.t("=>")
+					b.body++
+					cur := b.body
+					mark := len(b.toks)
+					b.renderExpr(pm.Expr, 0)
+					for k := mark; k < len(b.toks); k++ {
+						b.toks[k].Body = cur
+					}
+					if i < len(perms)-1 || st.TrailComma {
+						b.t(",")
+					}
+					b.nl()
 				}
-				b.t(")")
-				if st.BoolType {
-					b.t(":", "boolean")
-				}
-				b.t("=>")
-				b.body++
-				cur := b.body
-				mark := len(b.toks)
-				b.renderExpr(pm.Expr, 0)
-				for k := mark; k < len(b.toks); k++ {
-					b.toks[k].Body = cur
-				}
-				if i < len(perms)-1 || st.TrailComma {
-					b.t(",")
+				b.t("}")
+				if st.ClassSep {
+					b.t(";")
 				}
 				b.nl()
 			}
-			b.t("}")
-			if st.ClassSep {
-				b.t(";")
-			}
-			b.nl()
-		}
 		}
 		if st.DeclOrder&1 != 0 {
 			emitPermits()
@@ -397,12 +397,12 @@ func wordish(s string) bool {
 
 // Layout: how tokens are joined.
 const (
-	LayoutPretty  = iota // conventional spacing, line breaks + indentation at NL
-	LayoutCompact        // no white space except between two word tokens and at NL marks that stand for a separator
-	LayoutBlockComments  // pretty, and a /* c */ between every two tokens
-	LayoutDocComments    // pretty, and a /** c */ between every two tokens
-	LayoutLineComments   // a // c comment and a line break after every token
-	LayoutSpaced         // a blank between every two tokens
+	LayoutPretty        = iota // conventional spacing, line breaks + indentation at NL
+	LayoutCompact              // no white space except between two word tokens and at NL marks that stand for a separator
+	LayoutBlockComments        // pretty, and a /* c */ between every two tokens
+	LayoutDocComments          // pretty, and a /** c */ between every two tokens
+	LayoutLineComments         // a // c comment and a line break after every token
+	LayoutSpaced               // a blank between every two tokens
 )
 
 var layoutName = []string{"pretty", "compact", "block-comment-everywhere", "doc-comment-everywhere", "line-comment-everywhere", "blank-between-all-tokens"}
